@@ -1208,7 +1208,9 @@ def get_signals(signal_array, frame, ea, multiplex_id, float_factory, bit_offset
                     base_type = ea.follow_ref(test_signal, "BASE-TYPE-REF")
 
             # Only get min/max values of the internal
-            lowers = ea.get_children(data_constr, "INTERNAL-CONSTRS/LOWER-LIMIT")
+            # one lookup per path step: a two-step path would carry the namespace on its first step only
+            internal_constrs = ea.get_children(data_constr, "INTERNAL-CONSTRS")
+            lowers = [limit for constrs in internal_constrs for limit in ea.get_children(constrs, "LOWER-LIMIT")]
             if not lowers:
                 lower = None
             else:
@@ -1216,7 +1218,7 @@ def get_signals(signal_array, frame, ea, multiplex_id, float_factory, bit_offset
                 for elem in lowers:
                     if decimal.Decimal(lower.text) > decimal.Decimal(elem.text):
                         lower = elem
-            uppers = ea.get_children(data_constr, "INTERNAL-CONSTRS/UPPER-LIMIT")
+            uppers = [limit for constrs in internal_constrs for limit in ea.get_children(constrs, "UPPER-LIMIT")]
             if not uppers:
                 upper = None
             else:
